@@ -73,6 +73,14 @@ class SymX:
                 return ast.Name(id="<lambda>", ctx=ast.Load())
 
             def visit_Call(self, n):
+                args = []
+                for a in n.args:
+                    if isinstance(a, ast.Starred) and isinstance(a.value, ast.Name) and isinstance(env.get(a.value.id), tuple) \
+                            and env[a.value.id][:1] == ("tuple",):
+                        args += [ast.Name(id=_atom(show(x)), ctx=ast.Load()) for x in env[a.value.id][1:]]      # *args spelled out
+                    else:
+                        args.append(a)
+                n.args = args
                 self.generic_visit(n)
                 if isinstance(n.func, ast.Name) and n.func.id in ("dict", "list", "tuple") and not n.args and not n.keywords:
                     return {"dict": ast.Dict(keys=[], values=[]), "list": ast.List(elts=[], ctx=ast.Load()),
@@ -149,8 +157,16 @@ class SymX:
         walk(e)
         return out
 
-    def local_fn(self, call):
+    def local_fn(self, call, env=None):
         f = call.func
+        if self.terms and env is not None and isinstance(f, ast.Name) and is_term(env.get(f.id)) and env[f.id][0] == "t" and self.cls:
+            # a parameter that holds a bound method of the object under analysis: function(*args) with function = self._x
+            txt = env[f.id][1]
+            if txt.startswith("$self.") and txt[6:].isidentifier():
+                c, fn = self.repo.resolve_method(self.cls, txt[6:])
+                if fn is not None and txt[6:].startswith("_"):
+                    static = "staticmethod" in self.repo.classes[c].decorators.get(txt[6:], [])
+                    return fn, not static, self.repo.classes[c].module.name
         if self.terms:
             if isinstance(f, ast.Name) and f.id.startswith("_"):
                 r = self.resolve_fn(f.id, self.cur_module)
@@ -285,7 +301,7 @@ class SymX:
                 continue
             t = fr["try"]
             for h in t.handlers:
-                names = None if h.type is None else [norm(x).split(".")[-1] for x in (h.type.elts if isinstance(h.type, ast.Tuple) else [h.type])]
+                names = None if h.type is None else [self._exc_name(x, env) for x in (h.type.elts if isinstance(h.type, ast.Tuple) else [h.type])]
                 if names is None or any(self.matches(cls, n) for n in names):
                     env2 = dict(env)
                     env2["$handling"] = cls
@@ -295,6 +311,12 @@ class SymX:
                                            events + [("caught", cls, "bare" if names is None else "/".join(names))],
                                            fr["handlers"], outs, fr["k"], 0)
         outs.append(Out("raise", cls, events))
+
+    def _exc_name(self, x, env):
+        """class named by a handler's type expression; a local that holds an exception class (a parameter default)"""
+        if isinstance(x, ast.Name) and is_term(env.get(x.id)) and env[x.id][0] == "t":
+            return env[x.id][1].split(".")[-1]
+        return norm(x).split(".")[-1]
 
     def matches(self, cls, handler):
         if cls == OTHER:
@@ -336,7 +358,7 @@ class SymX:
                     else:
                         self.eval_calls(_swap(e, ife, ife.body if v else ife.orelse), env2, ev2, handlers, outs, k, depth)
                 return self.eval_calls(ife.test, env, events, handlers, outs, chosen, depth)
-        calls = [c for c in self.calls_in(e) if self.local_fn(c) is not None or self.interesting(c) or self.closure_of(c, env)]
+        calls = [c for c in self.calls_in(e) if self.local_fn(c, env) is not None or self.interesting(c) or self.closure_of(c, env)]
         if not calls:
             return k(self.ev(e, env), env, events)
         c = calls[0]
@@ -348,7 +370,7 @@ class SymX:
             env3[name] = v
             e2 = _swap(e, c, ast.Name(id=name, ctx=ast.Load()))
             return self.eval_calls(e2, env3, ev2, handlers, outs, k, depth)
-        lf = self.local_fn(c)
+        lf = self.local_fn(c, env)
         clo = self.closure_of(c, env) if lf is None else None
         if (lf is not None or clo is not None) and depth < 8:
             if lf is not None:
@@ -363,8 +385,23 @@ class SymX:
             if is_method and "self" in env:
                 cenv["self"] = env["self"]
             cenv.update({p: UNKNOWN for p in params})
-            for p, a in zip(params, c.args):
-                cenv[p] = self.ev(a, env)
+            actual = []
+            for a in c.args:
+                if isinstance(a, ast.Starred):
+                    v = self.ev(a.value, env)
+                    if isinstance(v, tuple) and v[:1] == ("tuple",):
+                        actual.extend(v[1:])
+                    else:
+                        actual.append(UNKNOWN)
+                else:
+                    actual.append(self.ev(a, env))
+            for p, v in zip(params, actual):
+                cenv[p] = v
+            if getattr(fn.args, "vararg", None) is not None:
+                cenv[fn.args.vararg.arg] = ("tuple",) + tuple(actual[len(params):])
+            for ka, kd in zip(getattr(fn.args, "kwonlyargs", []), getattr(fn.args, "kw_defaults", [])):
+                if ka.arg not in [kw.arg for kw in c.keywords] and kd is not None:
+                    cenv[ka.arg] = self.ev(kd, {})
             for kw in c.keywords:
                 if kw.arg:
                     cenv[kw.arg] = self.ev(kw.value, env)
